@@ -133,7 +133,15 @@ Reach(S, E, n) == IF n = 0 THEN S ELSE Reach(S \cup {y \in Trans : \E x \in S : 
 CompsOf(E) == {Reach({t}, E, Cardinality(Trans)) : t \in Trans}
 
 \* ---------------------------------------------------------------- well-formedness (C11)
-Recursive(ch) == \E b \in Meths : \E c \in ch[b] : EndOf(c) = b
+\* recursion is decided on the call graph (chains of a recursive design are not enumerated)
+CallE == {<<D.sites[s].caller, D.sites[s].callee>> : s \in Sites}
+RECURSIVE TCB(_, _)
+TCB(E, n) ==
+  IF n = 0 THEN E
+  ELSE LET E2 == TCB(E, n - 1)
+       IN E2 \cup {<<a, b>> \in Bodies \X Bodies : \E m \in Bodies : <<a, m>> \in E2 /\ <<m, b>> \in E2}
+RecursiveCG == \E b \in Meths : <<b, b>> \in TCB(CallE, 4)      \* 2^4 >= number of bodies
+Recursive(ch) == RecursiveCG
 DoubleCall(ch) ==
   \E b \in Bodies : \E c, d \in ch[b] :
      c # d /\ EndOf(c) = EndOf(d) /\ ~D.bodies[EndOf(c)].nonexcl /\ ~ChainsExcl(c, d)
@@ -150,8 +158,8 @@ VerdictD(ch, conf, prio) ==
   ELSE "ok"
 
 Derive ==
-  LET ch == [b \in Bodies |-> ChainsFrom(b, MaxDepth)]
-      rec == Recursive(ch)
+  LET rec == RecursiveCG
+      ch == [b \in Bodies |-> IF rec THEN {} ELSE ChainsFrom(b, MaxDepth)]
       conf == IF rec THEN {} ELSE {<<t, u>> \in Trans \X Trans : t # u /\ (ImplicitConf(ch, t, u) \/ ExplicitConf(ch, t, u))}
       prio == PrioEdgesD(ch)
       verdict == VerdictD(ch, conf, prio)
